@@ -1244,6 +1244,10 @@ def tie_findings(generated, lemmas, translated_ok, src):
     """For the `extra(ctx)` hook of a check (runs after `lake build`): when the translation succeeded but the compiled lemma module is
     missing or older than its inputs, the equivalence proofs did not go through — say so in plain words.  `generated`, `lemmas`:
     paths of .lean files below lean/.  (A rejected construct is reported by `extract` with the SUBSET prefix instead.)"""
+    # `./check` step 2b now builds the second-tie module (Props/CxxSrc) itself and reports a failing build with the failing
+    # declarations, so this mtime-based guess is no longer needed - and it was wrong after a `--repo` run had restored a generated
+    # file with identical text (lake replays without touching the .olean).  Kept as a no-op for the configs that still call it.
+    return []
     if not translated_ok:
         return []
     lean = os.path.join(os.path.dirname(os.path.dirname(os.path.abspath(__file__))), "lean")
